@@ -348,7 +348,7 @@ theorem setParentSome_ok_eq (s s' : G) (t p : Uid) (hw : WF s) (h : setParentSom
       | some w => if (below s [t]).contains u then some w else s.owner u
       | none => s.owner u
     rw [below_single s t sub hsub]
-    cases s.owner p <;> rfl
+    try (cases s.owner p <;> rfl)
 
 theorem setParentNone_ok_eq (s s' : G) (t : Uid) (hw : WF s) (h : setParentNone s t = (s', none)) :
     s' = effSetParentNone s t := by
@@ -431,5 +431,757 @@ theorem chReorder_ok_eq (s s' : G) (h : Uid) (ids : List Int) (hw : WF s)
     show upd s.children h r u = if u = h then _ else s.children u
     rw [this]
     simp [upd]
+
+/-- copy of `Op.viaChildrenSetter` of Props/C16.lean -/
+def viaCS : Op → Bool
+  | .setChildren _ _ => true
+  | .floordiv _ _ => true
+  | .chInsert _ _ _ => true
+  | .chRemove _ _ => true
+  | .chRemoveAll _ _ => true
+  | .wbsRemove _ _ => true
+  | _ => false
+
+theorem effect_direct (s s' e : G) (op : Op) (hw : WF s)
+    (hv : viaCS op = false) (he : effOf s op = some e) (h : step s op = (s', none)) : s' = e := by
+  cases op with
+  | setParent t p => exact setParent_ok_eq s s' e t p hw he h
+  | chAppend h' t =>
+    simp only [effOf, Option.some.injEq] at he
+    rw [← he]; exact setParentSome_ok_eq s s' t h' hw h
+  | chReorder h' ids =>
+    simp only [effOf, Option.some.injEq] at he
+    rw [← he]; exact chReorder_ok_eq s s' h' ids hw h
+  | setPreds t l =>
+    simp only [effOf, Option.some.injEq] at he
+    rw [← he]; exact setPreds_ok_eq s s' t l h
+  | setSuccs t l =>
+    simp only [effOf, Option.some.injEq] at he
+    rw [← he]; exact setSuccs_ok_eq s s' t l h
+  | prAppend t x =>
+    simp only [effOf, Option.some.injEq] at he
+    rw [← he]; exact setPreds_ok_eq s s' t _ h
+  | suAppend t x =>
+    simp only [effOf, Option.some.injEq] at he
+    rw [← he]; exact setSuccs_ok_eq s s' t _ h
+  | lshift t l =>
+    simp only [effOf, Option.some.injEq] at he
+    rw [← he]; exact setPreds_ok_eq s s' t _ h
+  | rshift t l =>
+    simp only [effOf, Option.some.injEq] at he
+    rw [← he]; exact setSuccs_ok_eq s s' t _ h
+  | prRemove t x =>
+    simp only [effOf, Option.some.injEq] at he
+    simp only [step, prRemove] at h
+    rw [← he]
+    split at h
+    · rename_i hc; rw [if_pos hc]; exact setPreds_ok_eq s s' t _ h
+    · rename_i hc; rw [if_neg hc]; injection h with h1 _; exact h1.symm
+  | suRemove t x =>
+    simp only [effOf, Option.some.injEq] at he
+    simp only [step, suRemove] at h
+    rw [← he]
+    split at h
+    · rename_i hc; rw [if_pos hc]; exact setSuccs_ok_eq s s' t _ h
+    · rename_i hc; rw [if_neg hc]; injection h with h1 _; exact h1.symm
+  | setChildren _ _ => simp [viaCS] at hv
+  | floordiv _ _ => simp [viaCS] at hv
+  | chInsert _ _ _ => simp [viaCS] at hv
+  | chRemove _ _ => simp [viaCS] at hv
+  | chRemoveAll _ _ => simp [viaCS] at hv
+  | wbsRemove _ _ => simp [viaCS] at hv
+  | chMove _ _ _ _ => simp [effOf] at he
+  | chSort _ _ _ => simp [effOf] at he
+  | listLshift _ _ => simp [effOf] at he
+  | listRshift _ _ => simp [effOf] at he
+  | listSetParent _ _ => simp [effOf] at he
+  | wbsRemoveAll _ _ => simp [effOf] at he
+
+/-! ### `dedupLast` -/
+
+theorem eraseDups_filter (p : Uid → Bool) (n : Nat) : ∀ l : List Uid, l.length ≤ n →
+    (l.filter p).eraseDups = (l.eraseDups).filter p := by
+  induction n with
+  | zero =>
+    intro l hl
+    have : l = [] := List.eq_nil_of_length_eq_zero (Nat.le_zero.mp hl)
+    subst this; simp
+  | succ n ih =>
+    intro l hl
+    cases l with
+    | nil => simp
+    | cons a as =>
+      have hfl : (as.filter fun b => !b == a).length ≤ n :=
+        Nat.le_trans (List.length_filter_le _ _) (Nat.le_of_succ_le_succ hl)
+      rw [List.eraseDups_cons]
+      by_cases hpa : p a = true
+      · rw [List.filter_cons_of_pos hpa, List.filter_cons_of_pos hpa, List.eraseDups_cons, ← ih _ hfl,
+          List.filter_filter, List.filter_filter]
+        congr 2
+        apply List.filter_congr
+        intro x _
+        exact Bool.and_comm _ _
+      · rw [List.filter_cons_of_neg hpa, List.filter_cons_of_neg hpa, ← ih _ hfl, List.filter_filter]
+        congr 1
+        apply List.filter_congr
+        intro x _
+        by_cases hx : x = a
+        · subst hx; simp [hpa]
+        · simp [hx]
+
+theorem dedupLast_snoc (p : List Uid) (v : Uid) :
+    dedupLast (p ++ [v]) = (dedupLast p).filter (fun c => c != v) ++ [v] := by
+  unfold dedupLast
+  rw [List.reverse_append, List.reverse_singleton, List.singleton_append, List.eraseDups_cons,
+    List.reverse_cons, eraseDups_filter _ _ _ (Nat.le_refl _), List.filter_reverse]
+  rfl
+
+theorem nodup_reverse' {l : List Uid} (h : l.Nodup) : l.reverse.Nodup :=
+  List.pairwise_reverse.mpr (List.Pairwise.imp (fun hab => Ne.symm hab) h)
+
+theorem mem_dedupLast (l : List Uid) (x : Uid) : x ∈ dedupLast l ↔ x ∈ l := by
+  unfold dedupLast
+  rw [List.mem_reverse, List.mem_eraseDups, List.mem_reverse]
+
+theorem contains_dedupLast (l : List Uid) (x : Uid) : (dedupLast l).contains x = l.contains x := by
+  rw [Bool.eq_iff_iff, List.contains_iff_mem, List.contains_iff_mem]
+  exact mem_dedupLast l x
+
+theorem dedupLast_of_nodup (l : List Uid) (h : l.Nodup) : dedupLast l = l := by
+  unfold dedupLast
+  rw [eraseDups_of_nodup _ (nodup_reverse' h), List.reverse_reverse]
+
+theorem nodup_dedupLast (l : List Uid) : (dedupLast l).Nodup := by
+  unfold dedupLast
+  exact nodup_reverse' (nodup_eraseDups _)
+
+theorem foldl_dedupLast (rest : List Uid) : ∀ p : List Uid,
+    rest.foldl (fun acc v => acc.filter (fun c => c != v) ++ [v]) (dedupLast p) = dedupLast (p ++ rest) := by
+  induction rest with
+  | nil => intro p; simp
+  | cons v vs ih =>
+    intro p
+    rw [List.foldl_cons, ← dedupLast_snoc, ih]
+    simp
+
+/-! ### the children setter: hierarchy fields in closed form -/
+
+theorem fold_exact {s0 : G} {h : Uid} {l : List Uid} (pre : Pre s0 h l) :
+    ∀ (rest : List Uid) (D : Uid → Prop) (cur : G), (∀ v ∈ rest, v ∈ l) → Loop s0 h l D cur →
+      (∀ x, (foldSetParent cur rest h).1.parent x = if x ∈ rest then some h else cur.parent x) ∧
+      (∀ q, (foldSetParent cur rest h).1.children q =
+        if q = h then rest.foldl (fun acc v => acc.filter (fun c => c != v) ++ [v]) (cur.children h)
+        else (cur.children q).filter (fun c => !rest.contains c)) := by
+  intro rest
+  induction rest with
+  | nil =>
+    intro D cur _ _
+    refine ⟨fun x => by simp [foldSetParent], fun q => ?_⟩
+    by_cases hq : q = h
+    · subst hq; simp [foldSetParent]
+    · simp only [foldSetParent, if_neg hq]
+      exact (List.filter_eq_self.mpr (by simp)).symm
+  | cons v vs ih =>
+    intro D cur hsub L
+    have hv : v ∈ l := hsub v List.mem_cons_self
+    obtain ⟨hok, L'⟩ := L.step pre hv
+    have he : setParentSome cur v h = ((setParentSome cur v h).1, none) := by
+      rw [← hok]
+    obtain ⟨sub, _, _, _, _, _, e5, e6, _⟩ := setParentSome_exact cur _ v h L.wf he
+    have hf : foldSetParent cur (v :: vs) h = foldSetParent (setParentSome cur v h).1 vs h := by
+      rw [foldSetParent]
+      show (match setParentSome cur v h with
+        | (s', some e) => (s', some e)
+        | (s', none) => foldSetParent s' vs h) = _
+      rw [he]
+    obtain ⟨i1, i2⟩ := ih _ _ (fun x hx => hsub x (List.mem_cons_of_mem _ hx)) L'
+    rw [hf]
+    refine ⟨fun x => ?_, fun q => ?_⟩
+    · rw [i1, e5]
+      by_cases hxv : x = v
+      · subst hxv; simp
+      · simp [hxv, upd]
+    · rw [i2]
+      by_cases hq : q = h
+      · subst hq
+        simp only [if_true, List.foldl_cons]
+        rw [e6, if_pos rfl]
+      · simp only [if_neg hq]
+        rw [e6, if_neg hq, List.filter_filter]
+        apply List.filter_congr
+        intro x _
+        by_cases hxv : x = v <;> simp [hxv]
+
+theorem setChildren_exact (s : G) (h : Uid) (l : List Uid) (pre : Pre s h l) (hc : chkChildren s h l = none) :
+    ∃ s', setChildren s h l = (s', none) ∧ Inv s' ∧ s'.n = s.n ∧ s'.tid = s.tid ∧ s'.preds = s.preds ∧
+      s'.succs = s.succs ∧ s'.owner h = s.owner h ∧
+      (∀ x, s'.parent x = if x ∈ l then some h else if x ∈ s.children h then none else s.parent x) ∧
+      (∀ q, s'.children q = if q = h then dedupLast l else (s.children q).filter (fun c => !l.contains c)) := by
+  obtain ⟨s1, he, L⟩ := Loop.init pre
+  obtain ⟨s1', he', hpar, hch, _, _, _, _, _, _⟩ := releaseChildren_spec s h l pre.inv.wf pre.inv.bnd
+  have e1 : s1' = s1 := by
+    have := he'.symm.trans he
+    injection this
+  subst e1
+  obtain ⟨f1, f2⟩ := Loop.fold pre l _ s1' (fun v hv => hv) L
+  obtain ⟨g1, g2⟩ := fold_exact pre l _ s1' (fun v hv => hv) L
+  have e : setChildren s h l = foldSetParent s1' l h := by
+    unfold setChildren
+    rw [hc]
+    simp only [he]
+  have L' : Loop s h l (fun x => x ∈ l) (foldSetParent s1' l h).1 := f2.mono (fun v hv => Or.inr hv)
+  refine ⟨(foldSetParent s1' l h).1, ?_, L'.inv pre, L'.n, L'.tid, L'.preds, L'.succs, L'.ownh, ?_, ?_⟩
+  · rw [e, ← f1]
+  · intro x
+    rw [g1, hpar]
+  · intro q
+    rw [g2, hch]
+    by_cases hq : q = h
+    · subst hq
+      rw [if_pos rfl, if_pos rfl, upd_same]
+      have := foldl_dedupLast l []
+      simpa [dedupLast] using this
+    · rw [if_neg hq, if_neg hq, upd_other _ _ _ _ hq]
+
+/-! ### owners are determined by the hierarchy on an `Inv` state -/
+
+theorem mem_below (s : G) (hw : WF s) (hb : Bounded s) (ts : List Uid) (x : Uid) :
+    x ∈ below s ts ↔ ∃ t ∈ ts, RTC (par s) x t := by
+  unfold below
+  rw [List.mem_flatMap]
+  constructor
+  · rintro ⟨t, ht, hx⟩
+    obtain ⟨sub, hsub⟩ := subtreeF_children_total s hw hb t
+    rw [hsub] at hx
+    exact ⟨t, ht, (subtreeF_mem s hw.listed _ t sub hsub x).mp hx⟩
+  · rintro ⟨t, ht, hx⟩
+    obtain ⟨sub, hsub⟩ := subtreeF_children_total s hw hb t
+    refine ⟨t, ht, ?_⟩
+    rw [hsub]
+    exact (subtreeF_mem s hw.listed _ t sub hsub x).mpr hx
+
+theorem contains_below (s : G) (hw : WF s) (hb : Bounded s) (ts : List Uid) (x : Uid) :
+    (below s ts).contains x = true ↔ ∃ t ∈ ts, RTC (par s) x t := by
+  rw [List.contains_iff_mem]; exact mem_below s hw hb ts x
+
+/-- same top of the parent chain, same hidden flags ⇒ same owner -/
+theorem owner_eq_of_top (s s' : G) (hi : Inv s) (hi' : Inv s') (htid : s'.tid = s.tid) (x r : Uid)
+    (h1 : RTC (par s) x r) (h2 : s.parent r = none) (h1' : RTC (par s') x r) (h2' : s'.parent r = none) :
+    s'.owner x = s.owner x := by
+  have hh : s'.hidden r = s.hidden r := hidden_of_tid s s' htid r
+  cases hr : s.hidden r with
+  | true =>
+    rw [(owner_iff_root s hi x r).mpr ⟨h1, hr⟩, (owner_iff_root s' hi' x r).mpr ⟨h1', hh.trans hr⟩]
+  | false =>
+    rw [(owner_none_iff s hi x).mpr ⟨r, h1, h2, hr⟩, (owner_none_iff s' hi' x).mpr ⟨r, h1', h2', hh.trans hr⟩]
+
+/-- a chain of `s` survives in `s'` when none of its inner nodes has been re-parented -/
+theorem chain_kept (s s' : G) (keep : Uid → Prop) (hk : ∀ z, keep z → s'.parent z = s.parent z) (x : Uid) :
+    ∀ y, RTC (par s) x y → (∀ z, RTC (par s) x z → TC (par s) z y → keep z) → RTC (par s') x y := by
+  intro y hxy
+  induction hxy with
+  | refl => intro _; exact RTC.refl
+  | tail hxb hbc ih =>
+    intro hz
+    refine RTC.tail (ih (fun z h1 h2 => hz z h1 (TC.tail h2 hbc))) ?_
+    unfold par at hbc ⊢
+    rw [hk _ (hz _ hxb (TC.single hbc))]; exact hbc
+
+theorem owner_after_setChildren (s s' : G) (h : Uid) (l : List Uid) (hi : Inv s) (hi' : Inv s') (htid : s'.tid = s.tid)
+    (hne : ∀ v ∈ l, ¬ RTC (par s) h v) (hoh : s'.owner h = s.owner h)
+    (hpar : ∀ x, s'.parent x = if x ∈ l then some h else if x ∈ s.children h then none else s.parent x) (x : Uid) :
+    ((∃ v ∈ l, RTC (par s) x v) → s'.owner x = s.owner h) ∧
+    (¬ (∃ v ∈ l, RTC (par s) x v) → (∃ c ∈ s.children h, c ∉ l ∧ RTC (par s) x c) → s'.owner x = none) ∧
+    (¬ (∃ v ∈ l, RTC (par s) x v) → ¬ (∃ c ∈ s.children h, c ∉ l ∧ RTC (par s) x c) → s'.owner x = s.owner x) := by
+  have hw := hi.wf
+  have hkeep : ∀ z, (z ∉ l ∧ z ∉ s.children h) → s'.parent z = s.parent z := by
+    intro z hz; rw [hpar, if_neg hz.1, if_neg hz.2]
+  have hchild : ∀ z c, z ∈ s.children h → c ∈ s.children h → ¬ TC (par s) z c := by
+    intro z c hz hc hzc
+    have hpz := (hw.listed z h).mpr hz
+    have hpc : par s c h := (hw.listed c h).mpr hc
+    rcases par_TC_cases s hpz hzc with e | e
+    · subst e; exact hw.forest c (TC.single hpc)
+    · exact hw.forest h (TC.tail e hpc)
+  refine ⟨?_, ?_, ?_⟩
+  · rintro ⟨v, hv, hxv⟩
+    rw [← hoh]
+    refine owner_of_RTC s' hi'.own.inherit ?_
+    have : ∀ y, RTC (fun a b => par s b a) v y → RTC (par s') y h := by
+      intro y hy
+      induction hy with
+      | refl => exact RTC.head (r := par s') (show s'.parent v = some h by rw [hpar, if_pos hv]) RTC.refl
+      | tail hvb hbc ih =>
+        rename_i b c
+        -- `par s c b`, `b` below `v`
+        by_cases hcl : c ∈ l
+        · exact RTC.head (r := par s') (show s'.parent c = some h by rw [hpar, if_pos hcl]) RTC.refl
+        · by_cases hch : c ∈ s.children h
+          · have hpc := (hw.listed c h).mpr hch
+            have : b = h := by
+              have h1 : s.parent c = some b := hbc
+              rw [hpc] at h1; exact (Option.some.inj h1).symm
+            subst this
+            exact absurd (RTC.flip hvb) (hne v hv)
+          · refine RTC.head (r := par s') (show s'.parent c = some b from ?_) ih
+            rw [hkeep c ⟨hcl, hch⟩]; exact hbc
+    exact this x (RTC.unflip hxv)
+  · rintro hna ⟨c, hc, hcl, hxc⟩
+    have hch : s.hidden c = false := child_not_hidden s hw h c hc
+    have hx' : RTC (par s') x c := by
+      refine chain_kept s s' _ hkeep x c hxc ?_
+      intro z hxz hzc
+      exact ⟨fun hzl => hna ⟨z, hzl, hxz⟩, fun hzh => hchild z c hzh hc hzc⟩
+    have hp' : s'.parent c = none := by rw [hpar, if_neg hcl, if_pos hc]
+    exact (owner_none_iff s' hi' x).mpr ⟨c, hx', hp', (hidden_of_tid s s' htid c).trans hch⟩
+  · intro hna hnr
+    obtain ⟨r, hxr, hr⟩ := top_exists s hw hi.bnd x
+    have hrl : r ∉ l := fun hrl => hna ⟨r, hrl, hxr⟩
+    have hrc : r ∉ s.children h := by
+      intro hrc
+      rw [(hw.listed r h).mpr hrc] at hr; cases hr
+    have hx' : RTC (par s') x r := by
+      refine chain_kept s s' _ hkeep x r hxr ?_
+      intro z hxz _
+      refine ⟨fun hzl => hna ⟨z, hzl, hxz⟩, fun hzh => ?_⟩
+      exact hnr ⟨z, hzh, fun hzl => hna ⟨z, hzl, hxz⟩, hxz⟩
+    exact owner_eq_of_top s s' hi hi' htid x r hxr hr hx' (by rw [hkeep r ⟨hrl, hrc⟩]; exact hr)
+
+theorem setChildren_ok_eq (s s' : G) (h : Uid) (l : List Uid) (hi : Inv s)
+    (hv : ∀ v ∈ l, s.hidden v = false) (hh : h < s.n) (hl : ∀ v ∈ l, v < s.n)
+    (hs : setChildren s h l = (s', none)) : s' = effSetChildren s h l := by
+  have hc : chkChildren s h l = none := by
+    cases hc : chkChildren s h l with
+    | none => rfl
+    | some e =>
+      unfold setChildren at hs
+      rw [hc] at hs
+      cases hs
+  have pre := Pre.of_chk s h l hi hv hh hl hc
+  obtain ⟨s'', e0, hi', e1, e2, e3, e4, e5, e6, e7⟩ := setChildren_exact s h l pre hc
+  have : s'' = s' := by
+    have := e0.symm.trans hs
+    injection this
+  subst this
+  have hw := hi.wf
+  have hb := hi.bnd
+  apply SameG.eq
+  refine ⟨e1, fun u => ⟨by rw [e2]; rfl, ?_, ?_, by rw [e3]; rfl, by rw [e4]; rfl, ?_⟩⟩
+  · rw [e6]
+    show _ = if (dedupLast l).contains u then some h else if (s.children h).contains u then none else s.parent u
+    simp only [contains_dedupLast, List.contains_iff_mem]
+  · rw [e7]
+    show _ = if u = h then dedupLast l else (s.children u).filter (fun c => !(dedupLast l).contains c)
+    simp only [contains_dedupLast]
+  · obtain ⟨o1, o2, o3⟩ := owner_after_setChildren s s'' h l hi hi' e2 (fun v hv => pre.not_RTC hv) e5 e6 u
+    show _ = if (below s (dedupLast l)).contains u then s.owner h
+      else if (below s ((s.children h).filter (fun c => !(dedupLast l).contains c))).contains u then none else s.owner u
+    have ha : (below s (dedupLast l)).contains u = true ↔ ∃ v ∈ l, RTC (par s) u v := by
+      rw [contains_below s hw hb]
+      constructor
+      · rintro ⟨t, ht, hx⟩; exact ⟨t, (mem_dedupLast l t).mp ht, hx⟩
+      · rintro ⟨t, ht, hx⟩; exact ⟨t, (mem_dedupLast l t).mpr ht, hx⟩
+    have hr : (below s ((s.children h).filter (fun c => !(dedupLast l).contains c))).contains u = true ↔
+        ∃ c ∈ s.children h, c ∉ l ∧ RTC (par s) u c := by
+      rw [contains_below s hw hb]
+      constructor
+      · rintro ⟨t, ht, hx⟩
+        obtain ⟨h1, h2⟩ := List.mem_filter.mp ht
+        rw [contains_dedupLast] at h2
+        exact ⟨t, h1, by simpa using h2, hx⟩
+      · rintro ⟨t, h1, h2, hx⟩
+        refine ⟨t, List.mem_filter.mpr ⟨h1, ?_⟩, hx⟩
+        rw [contains_dedupLast]; simpa using h2
+    by_cases c1 : ∃ v ∈ l, RTC (par s) u v
+    · rw [if_pos (ha.mpr c1)]; exact o1 c1
+    · rw [if_neg (fun e => c1 (ha.mp e))]
+      by_cases c2 : ∃ c ∈ s.children h, c ∉ l ∧ RTC (par s) u c
+      · rw [if_pos (hr.mpr c2)]; exact o2 c1 c2
+      · rw [if_neg (fun e => c2 (hr.mp e))]; exact o3 c1 c2
+
+/-! ### `remove` / `remove_all` / `WBS.remove` -/
+
+theorem sibling_not_TC (s : G) (hw : WF s) (h z c : Uid) (hz : z ∈ s.children h) (hc : c ∈ s.children h) :
+    ¬ TC (par s) z c := by
+  intro hzc
+  have hpz := (hw.listed z h).mpr hz
+  have hpc : par s c h := (hw.listed c h).mpr hc
+  rcases par_TC_cases s hpz hzc with e | e
+  · subst e; exact hw.forest c (TC.single hpc)
+  · exact hw.forest h (TC.tail e hpc)
+
+theorem sibling_disjoint' (s : G) (hw : WF s) (h c c' x : Uid) (hc : c ∈ s.children h) (hc' : c' ∈ s.children h)
+    (hx : RTC (par s) x c) (hx' : RTC (par s) x c') : c = c' := by
+  apply Classical.byContradiction
+  intro hne
+  exact siblings_disjoint s hw h c c' x ((hw.listed c h).mpr hc) ((hw.listed c' h).mpr hc') hne hx hx'
+
+/-- the two closed forms agree: assigning the list without the named tasks = removing them -/
+theorem effSetChildren_filter_eq_effRemove (s : G) (h : Uid) (ts : List Uid) (hi : Inv s) :
+    effSetChildren s h ((s.children h).filter (fun c => !ts.contains c)) = effRemove s h ts := by
+  have hw := hi.wf
+  have hb := hi.bnd
+  have hL : dedupLast ((s.children h).filter (fun c => !ts.contains c)) = (s.children h).filter (fun c => !ts.contains c) :=
+    dedupLast_of_nodup _ ((hw.once h).filter _)
+  have hmemL : ∀ u, u ∈ (s.children h).filter (fun c => !ts.contains c) ↔ u ∈ s.children h ∧ u ∉ ts := by
+    intro u; rw [List.mem_filter]; simp
+  have hmemG : ∀ u, u ∈ (s.children h).filter (fun c => ts.contains c) ↔ u ∈ s.children h ∧ u ∈ ts := by
+    intro u; rw [List.mem_filter]; simp
+  apply SameG.eq
+  refine ⟨rfl, fun u => ⟨rfl, ?_, ?_, rfl, rfl, ?_⟩⟩
+  · show (if (dedupLast _).contains u then some h else if (s.children h).contains u then none else s.parent u) =
+      if ((s.children h).filter (fun c => ts.contains c)).contains u then none else s.parent u
+    rw [hL]
+    simp only [List.contains_iff_mem, hmemL, hmemG]
+    by_cases h1 : u ∈ s.children h
+    · by_cases h2 : u ∈ ts
+      · simp [h1, h2]
+      · simp [h1, h2, (hw.listed u h).mpr h1]
+    · simp [h1]
+  · show (if u = h then dedupLast _ else (s.children u).filter (fun c => !(dedupLast _).contains c)) =
+      if u = h then (s.children h).filter (fun c => !ts.contains c) else s.children u
+    rw [hL]
+    by_cases huh : u = h
+    · rw [if_pos huh, if_pos huh]
+    · rw [if_neg huh, if_neg huh]
+      apply List.filter_eq_self.mpr
+      intro c hc
+      have : c ∉ (s.children h).filter (fun c => !ts.contains c) := by
+        intro hcl
+        have h1 := (hw.listed c h).mpr ((hmemL c).mp hcl).1
+        have h2 := (hw.listed c u).mpr hc
+        rw [h1] at h2; exact huh (Option.some.inj h2).symm
+      cases hcc : ((s.children h).filter (fun c => !ts.contains c)).contains c with
+      | false => rfl
+      | true => exact absurd (List.contains_iff_mem.mp hcc) this
+  · show (if (below s (dedupLast _)).contains u then s.owner h
+        else if (below s ((s.children h).filter (fun c => !(dedupLast _).contains c))).contains u then none else s.owner u) =
+      if (below s ((s.children h).filter (fun c => ts.contains c))).contains u then none else s.owner u
+    rw [hL]
+    have hrel : (below s ((s.children h).filter (fun c => !((s.children h).filter (fun c => !ts.contains c)).contains c))).contains u
+        = (below s ((s.children h).filter (fun c => ts.contains c))).contains u := by
+      congr 2
+      apply List.filter_congr
+      intro c hc
+      rw [Bool.eq_iff_iff]
+      simp only [Bool.not_eq_true', ← Bool.not_eq_true, List.contains_iff_mem, hmemL]
+      simp [hc]
+    rw [hrel]
+    by_cases c1 : (below s ((s.children h).filter (fun c => !ts.contains c))).contains u = true
+    · rw [if_pos c1]
+      obtain ⟨v, hv, huv⟩ := (contains_below s hw hb _ u).mp c1
+      obtain ⟨hv1, hv2⟩ := (hmemL v).mp hv
+      have c2 : ¬ (below s ((s.children h).filter (fun c => ts.contains c))).contains u = true := by
+        intro c2
+        obtain ⟨c, hc, huc⟩ := (contains_below s hw hb _ u).mp c2
+        obtain ⟨hc1, hc2⟩ := (hmemG c).mp hc
+        have := sibling_disjoint' s hw h v c u hv1 hc1 huv huc
+        subst this; exact hv2 hc2
+      rw [if_neg c2, owner_of_RTC s hi.own.inherit huv]
+      exact (hi.own.inherit v h ((hw.listed v h).mpr hv1)).symm
+    · rw [if_neg c1]
+
+theorem effRemove_nil_of_not_mem (s : G) (h : Uid) (ts : List Uid) (hn : ∀ c ∈ s.children h, c ∉ ts) :
+    effRemove s h ts = s := by
+  have hg : (s.children h).filter (fun c => ts.contains c) = [] := by
+    apply List.filter_eq_nil_iff.mpr
+    intro c hc; simpa using hn c hc
+  apply SameG.eq
+  refine ⟨rfl, fun u => ⟨rfl, ?_, ?_, rfl, rfl, ?_⟩⟩
+  · show (if ((s.children h).filter (fun c => ts.contains c)).contains u then none else s.parent u) = _
+    rw [hg]; simp
+  · show (if u = h then (s.children h).filter (fun c => !ts.contains c) else s.children u) = _
+    by_cases huh : u = h
+    · subst huh
+      rw [if_pos rfl]
+      apply List.filter_eq_self.mpr
+      intro c hc; simpa using hn c hc
+    · rw [if_neg huh]
+  · show (if (below s ((s.children h).filter (fun c => ts.contains c))).contains u then none else s.owner u) = _
+    rw [hg]; simp [below]
+
+theorem chRemove_ok_eq (s s' : G) (h t : Uid) (hi : Inv s) (hs : chRemove s h t = (s', none)) :
+    s' = effRemove s h [t] := by
+  unfold chRemove at hs
+  split at hs
+  · rename_i hc
+    have htc : t ∈ s.children h := by simpa using hc
+    have hfe : (s.children h).filter (fun x => x != t) = (s.children h).filter (fun c => ![t].contains c) := by
+      apply List.filter_congr
+      intro x _
+      by_cases hx : x = t <;> simp [hx]
+    rw [hfe] at hs
+    rw [← effSetChildren_filter_eq_effRemove s h [t] hi]
+    refine setChildren_ok_eq s s' h _ hi ?_ (hi.bnd.children h t htc).1 ?_ hs
+    · intro v hv; exact (filter_children_ok s hi h _ v hv).1
+    · intro v hv; exact (filter_children_ok s hi h _ v hv).2
+  · rename_i hc
+    have htc : t ∉ s.children h := by simpa using hc
+    injection hs with h1 _
+    rw [← h1, effRemove_nil_of_not_mem]
+    intro c hc' hct
+    rw [List.mem_singleton] at hct
+    subst hct; exact htc hc'
+
+theorem effRemove_comp (s : G) (h t : Uid) (ts : List Uid) (hi : Inv s) (hi1 : Inv (effRemove s h [t])) :
+    effRemove (effRemove s h [t]) h ts = effRemove s h (t :: ts) := by
+  have hw := hi.wf
+  have hb := hi.bnd
+  have hc1 : (effRemove s h [t]).children h = (s.children h).filter (fun c => ![t].contains c) := by
+    simp [effRemove]
+  have hp1 : ∀ u, (effRemove s h [t]).parent u =
+      if ((s.children h).filter (fun c => [t].contains c)).contains u then none else s.parent u := fun _ => rfl
+  have hmG1 : ∀ u, u ∈ ((effRemove s h [t]).children h).filter (fun c => ts.contains c) ↔
+      u ∈ s.children h ∧ u ≠ t ∧ u ∈ ts := by
+    intro u; rw [hc1, List.mem_filter, List.mem_filter]; simp [and_assoc]
+  have hmGt : ∀ u, u ∈ (s.children h).filter (fun c => [t].contains c) ↔ u ∈ s.children h ∧ u = t := by
+    intro u; rw [List.mem_filter]; simp
+  have hmG : ∀ u, u ∈ (s.children h).filter (fun c => (t :: ts).contains c) ↔ u ∈ s.children h ∧ (u = t ∨ u ∈ ts) := by
+    intro u; rw [List.mem_filter]; simp
+  -- chains towards a kept sibling are the same in both states
+  have hrtc : ∀ x c, c ∈ s.children h → (RTC (par (effRemove s h [t])) x c ↔ RTC (par s) x c) := by
+    intro x c hc
+    constructor
+    · refine RTC.mono ?_
+      intro a b hab
+      unfold par at hab ⊢
+      rw [hp1] at hab
+      split at hab
+      · cases hab
+      · exact hab
+    · intro hxc
+      refine chain_kept s (effRemove s h [t]) (fun z => z ∉ (s.children h).filter (fun c => [t].contains c)) ?_ x c hxc ?_
+      · intro z hz
+        rw [hp1, if_neg (fun e => hz (List.contains_iff_mem.mp e))]
+      · intro z _ hzc hz
+        exact sibling_not_TC s hw h z c ((hmGt z).mp hz).1 hc hzc
+  apply SameG.eq
+  refine ⟨rfl, fun u => ⟨rfl, ?_, ?_, rfl, rfl, ?_⟩⟩
+  · show (if (((effRemove s h [t]).children h).filter (fun c => ts.contains c)).contains u then none
+        else (effRemove s h [t]).parent u) =
+      if ((s.children h).filter (fun c => (t :: ts).contains c)).contains u then none else s.parent u
+    rw [hp1]
+    simp only [List.contains_iff_mem, hmG1, hmGt, hmG]
+    by_cases h1 : u ∈ s.children h <;> by_cases h2 : u = t <;> by_cases h3 : u ∈ ts <;> simp [h1, h2, h3]
+  · show (if u = h then ((effRemove s h [t]).children h).filter (fun c => !ts.contains c)
+        else (effRemove s h [t]).children u) =
+      if u = h then (s.children h).filter (fun c => !(t :: ts).contains c) else s.children u
+    by_cases huh : u = h
+    · rw [if_pos huh, if_pos huh, hc1, List.filter_filter]
+      apply List.filter_congr
+      intro c _
+      by_cases h2 : c = t <;> simp [h2]
+    · rw [if_neg huh, if_neg huh]
+      show (if u = h then _ else s.children u) = _
+      rw [if_neg huh]
+  · show (if (below (effRemove s h [t]) (((effRemove s h [t]).children h).filter (fun c => ts.contains c))).contains u
+        then none else (effRemove s h [t]).owner u) =
+      if (below s ((s.children h).filter (fun c => (t :: ts).contains c))).contains u then none else s.owner u
+    have ho1 : (effRemove s h [t]).owner u =
+      if (below s ((s.children h).filter (fun c => [t].contains c))).contains u then none else s.owner u := rfl
+    rw [ho1]
+    have e1 := contains_below (effRemove s h [t]) hi1.wf hi1.bnd
+      (((effRemove s h [t]).children h).filter (fun c => ts.contains c)) u
+    have e2 := contains_below s hw hb ((s.children h).filter (fun c => [t].contains c)) u
+    have e3 := contains_below s hw hb ((s.children h).filter (fun c => (t :: ts).contains c)) u
+    have key : ((∃ c ∈ ((effRemove s h [t]).children h).filter (fun c => ts.contains c), RTC (par (effRemove s h [t])) u c) ∨
+        (∃ c ∈ (s.children h).filter (fun c => [t].contains c), RTC (par s) u c)) ↔
+        ∃ c ∈ (s.children h).filter (fun c => (t :: ts).contains c), RTC (par s) u c := by
+      constructor
+      · rintro (⟨c, hc, hx⟩ | ⟨c, hc, hx⟩)
+        · obtain ⟨a1, a2, a3⟩ := (hmG1 c).mp hc
+          exact ⟨c, (hmG c).mpr ⟨a1, Or.inr a3⟩, (hrtc u c a1).mp hx⟩
+        · obtain ⟨a1, a2⟩ := (hmGt c).mp hc
+          exact ⟨c, (hmG c).mpr ⟨a1, Or.inl a2⟩, hx⟩
+      · rintro ⟨c, hc, hx⟩
+        obtain ⟨a1, a2⟩ := (hmG c).mp hc
+        by_cases hct : c = t
+        · exact Or.inr ⟨c, (hmGt c).mpr ⟨a1, hct⟩, hx⟩
+        · rcases a2 with a2 | a2
+          · exact absurd a2 hct
+          · exact Or.inl ⟨c, (hmG1 c).mpr ⟨a1, hct, a2⟩, (hrtc u c a1).mpr hx⟩
+    rw [← e1, ← e2, ← e3] at key
+    by_cases c1 : (below (effRemove s h [t]) (((effRemove s h [t]).children h).filter (fun c => ts.contains c))).contains u = true
+    · rw [if_pos c1, if_pos (key.mp (Or.inl c1))]
+    · rw [if_neg c1]
+      by_cases c2 : (below s ((s.children h).filter (fun c => [t].contains c))).contains u = true
+      · rw [if_pos c2, if_pos (key.mp (Or.inr c2))]
+      · rw [if_neg c2, if_neg]
+        intro c3
+        rcases key.mpr c3 with e | e
+        · exact c1 e
+        · exact c2 e
+
+theorem chRemoveAll_ok_eq (h : Uid) : ∀ (ts : List Uid) (s s' : G), Inv s →
+    forEach (fun s t => chRemove s h t) s ts = (s', none) → s' = effRemove s h ts := by
+  intro ts
+  induction ts with
+  | nil =>
+    intro s s' _ hs
+    simp only [forEach] at hs
+    injection hs with h1 _
+    rw [← h1, effRemove_nil_of_not_mem]
+    intro c _ hc; cases hc
+  | cons t ts ih =>
+    intro s s' hi hs
+    rw [forEach] at hs
+    have hok := chRemove_ok' s h t hi
+    have he : chRemove s h t = ((chRemove s h t).1, none) := by rw [← hok]
+    have h1 := chRemove_ok_eq s _ h t hi he
+    have hi1 : Inv (chRemove s h t).1 := chRemove_Inv s h t hi
+    rw [he] at hs
+    have := ih _ s' hi1 hs
+    rw [this, h1]
+    rw [h1] at hi1
+    exact effRemove_comp s h t ts hi hi1
+
+/-- what the depth-first search of `WBS.remove` returns -/
+theorem removeRec_spec (t : Uid) (s : G) (hi : Inv s) :
+    ∀ (f : Nat) (cur : Uid) (r : G × Option Err × Bool), removeRec t f s cur = some r →
+      (r.2.2 = true → ∃ p, t ∈ s.children p ∧ RTC (par s) p cur ∧ r.1 = (chRemove s p t).1) ∧
+      (r.2.2 = false → r.1 = s ∧ ¬ TC (par s) t cur) := by
+  intro f
+  induction f with
+  | zero => intro cur r h; rw [removeRec.eq_1] at h; cases h
+  | succ f ih =>
+    intro cur r h
+    rw [removeRec.eq_2] at h
+    split at h
+    · rename_i hc
+      cases h
+      refine ⟨fun _ => ⟨cur, by simpa using hc, RTC.refl, rfl⟩, fun hb => by cases hb⟩
+    · rename_i hc
+      have hgo : ∀ (cs : List Uid) (r : G × Option Err × Bool), removeRec.go t f s cs = some r →
+          (r.2.2 = true → ∃ p, t ∈ s.children p ∧ (∃ c ∈ cs, RTC (par s) p c) ∧ r.1 = (chRemove s p t).1) ∧
+          (r.2.2 = false → r.1 = s ∧ ∀ c ∈ cs, ¬ TC (par s) t c) := by
+        intro cs
+        induction cs with
+        | nil =>
+          intro r h
+          rw [removeRec.go.eq_1] at h
+          cases h
+          exact ⟨fun hb => (by cases hb), fun _ => ⟨rfl, fun c hc => (by cases hc)⟩⟩
+        | cons c cs ihc =>
+          intro r h
+          rw [removeRec.go.eq_2] at h
+          split at h
+          · cases h
+          · rename_i heq
+            have := removeRec_ok t s hi f c _ heq
+            cases this
+          · rename_i heq
+            cases h
+            obtain ⟨i1, _⟩ := ih c _ heq
+            obtain ⟨p, hp, hpc, hr⟩ := i1 rfl
+            exact ⟨fun _ => ⟨p, hp, ⟨c, List.mem_cons_self, hpc⟩, hr⟩, fun hb => by cases hb⟩
+          · rename_i heq
+            obtain ⟨_, i2⟩ := ih c _ heq
+            obtain ⟨j1, j2⟩ := ihc r h
+            refine ⟨fun hb => ?_, fun hb => ?_⟩
+            · obtain ⟨p, hp, ⟨c', hc', hpc⟩, hr⟩ := j1 hb
+              exact ⟨p, hp, ⟨c', List.mem_cons_of_mem _ hc', hpc⟩, hr⟩
+            · obtain ⟨k1, k2⟩ := j2 hb
+              refine ⟨k1, fun c' hc' => ?_⟩
+              rcases List.mem_cons.mp hc' with e | e
+              · rw [e]; exact (i2 rfl).2
+              · exact k2 c' e
+      obtain ⟨g1, g2⟩ := hgo _ r h
+      refine ⟨fun hb => ?_, fun hb => ?_⟩
+      · obtain ⟨p, hp, ⟨c, hcc, hpc⟩, hr⟩ := g1 hb
+        exact ⟨p, hp, RTC.tail hpc ((hi.wf.listed c cur).mpr hcc), hr⟩
+      · obtain ⟨k1, k2⟩ := g2 hb
+        refine ⟨k1, fun htc => ?_⟩
+        rcases htc.tail_cases with e | ⟨b, e1, e2⟩
+        · exact hc (List.contains_iff_mem.mpr ((hi.wf.listed t cur).mp e))
+        · exact k2 b ((hi.wf.listed b cur).mp e2) e1
+
+theorem wbsRemove_ok_eq (s s' e : G) (w t : Uid) (hi : Inv s) (hw : s.hidden w = true)
+    (he : effOf s (.wbsRemove w t) = some e) (hs : wbsRemove s w t = (s', none)) : s' = e := by
+  simp only [effOf, Option.some.injEq] at he
+  unfold wbsRemove at hs
+  split at hs
+  · cases hs
+  · rename_i s'' e' b heq
+    injection hs with h1 h2
+    subst h1
+    obtain ⟨r1, r2⟩ := removeRec_spec t s hi _ w _ heq
+    cases b with
+    | true =>
+      obtain ⟨p, hp, hpw, hr⟩ := r1 rfl
+      simp only at hr
+      have hpar : s.parent t = some p := (hi.wf.listed t p).mpr hp
+      have htw : TC (par s) t w := TC.of_step_RTC (r := par s) hpar hpw
+      have hown : s.owner t = some w := (owner_iff_root s hi t w).mpr ⟨htw.toRTC, hw⟩
+      have hne : t ≠ w := by
+        intro e; subst e; exact hi.wf.forest t htw
+      have hcond : (s.owner t == some w && t != w) = true := by simp [hown, hne]
+      rw [if_pos hcond, hpar] at he
+      simp only at he
+      rw [← he, hr]
+      have hok := chRemove_ok' s p t hi
+      exact chRemove_ok_eq s _ p t hi (by rw [← hok])
+    | false =>
+      obtain ⟨k1, k2⟩ := r2 rfl
+      simp only at k1
+      have hcond : ¬ (s.owner t == some w && t != w) = true := by
+        intro hc
+        simp only [Bool.and_eq_true, beq_iff_eq, bne_iff_ne, ne_eq] at hc
+        obtain ⟨c1, c2⟩ := hc
+        have := ((owner_iff_root s hi t w).mp c1).1
+        rcases this.cases_eq_or_TC with e | e
+        · exact c2 e
+        · exact k2 e
+      rw [if_neg hcond] at he
+      rw [← he, k1]
+
+theorem effect_children (s s' e : G) (op : Op) (hi : Inv s) (hl : op.legal s)
+    (hv : viaCS op = true) (he : effOf s op = some e) (h : step s op = (s', none)) : s' = e := by
+  cases op with
+  | setChildren h' l =>
+    simp only [effOf, Option.some.injEq] at he
+    rw [← he]
+    refine setChildren_ok_eq s s' h' l hi ?_ (hl.inRange h' List.mem_cons_self) ?_ h
+    · intro v hv'; exact hl.visible v hv'
+    · intro v hv'; exact hl.inRange v (List.mem_cons_of_mem _ hv')
+  | floordiv h' l =>
+    simp only [effOf, Option.some.injEq] at he
+    rw [← he]
+    have hok := append_children_ok s hi h' l (fun v hv' => hl.visible v hv')
+      (fun v hv' => hl.inRange v (List.mem_cons_of_mem _ hv'))
+    exact setChildren_ok_eq s s' h' _ hi (fun v hv' => (hok v hv').1) (hl.inRange h' List.mem_cons_self)
+      (fun v hv' => (hok v hv').2) h
+  | chInsert h' i t =>
+    simp only [effOf, Option.some.injEq] at he
+    rw [← he]
+    have hok := insert_children_ok s hi h' i t (hl.visible t List.mem_cons_self)
+      (hl.inRange t (List.mem_cons_of_mem _ List.mem_cons_self))
+    exact setChildren_ok_eq s s' h' _ hi (fun v hv' => (hok v hv').1) (hl.inRange h' List.mem_cons_self)
+      (fun v hv' => (hok v hv').2) h
+  | chRemove h' t =>
+    simp only [effOf, Option.some.injEq] at he
+    rw [← he]
+    exact chRemove_ok_eq s s' h' t hi h
+  | chRemoveAll h' ts =>
+    simp only [effOf, Option.some.injEq] at he
+    rw [← he]
+    exact chRemoveAll_ok_eq h' ts s s' hi h
+  | wbsRemove w t => exact wbsRemove_ok_eq s s' e w t hi (hl.wbs w t (Or.inl rfl)) he h
+  | setParent _ _ => simp [viaCS] at hv
+  | chAppend _ _ => simp [viaCS] at hv
+  | chReorder _ _ => simp [viaCS] at hv
+  | setPreds _ _ => simp [viaCS] at hv
+  | setSuccs _ _ => simp [viaCS] at hv
+  | prAppend _ _ => simp [viaCS] at hv
+  | suAppend _ _ => simp [viaCS] at hv
+  | lshift _ _ => simp [viaCS] at hv
+  | rshift _ _ => simp [viaCS] at hv
+  | prRemove _ _ => simp [viaCS] at hv
+  | suRemove _ _ => simp [viaCS] at hv
+  | chMove _ _ _ _ => simp [viaCS] at hv
+  | chSort _ _ _ => simp [viaCS] at hv
+  | listLshift _ _ => simp [viaCS] at hv
+  | listRshift _ _ => simp [viaCS] at hv
+  | listSetParent _ _ => simp [viaCS] at hv
+  | wbsRemoveAll _ _ => simp [viaCS] at hv
 
 end Pj
